@@ -49,7 +49,6 @@ DATE_RE = r"\d{4}-\d\d-\d\d_\d\d-\d\d-\d\d_\d{6}"
 DATE_FMT = "%Y-%m-%d_%H-%M-%S_%f"
 T0 = 1600000000
 PRE = 100000
-F13_KEY = "F13-close-fault-leaves-closed-file-object"
 
 
 def date_str(d):
@@ -333,7 +332,6 @@ class Exec:
         self.line = None
         self.acked = []
         self.deleted = set()
-        self.f13 = False
 
 
 def err_of_stderr(text):
@@ -447,7 +445,6 @@ def execute(sc, fault_at=()):
     env_deleted = set()
     model_ops = []
     saved_err = sys.stderr
-    prev_fired_close = False
     try:
         make_pre(sc, logdir)
         shim.install()
@@ -533,17 +530,11 @@ def execute(sc, fault_at=()):
             ex.ops.append(rec)
             # ---- direct monitors on the real directory (model-independent)
             run_monitors(sc, ex, idx, rec, pre_ids, env_deleted, bool(fault_at))
-            # usability: a call in which no injected fault fired must succeed (the sink recovered)
+            # usability: a call in which no injected fault fired must succeed (the sink recovered) – this
+            # includes the call after a failed file.close() (finding F26, fixed in e6154e8)
             if kind == "w" and not fired and res != "ok" and not res.startswith("RAISED"):
-                if prev_fired_close and res == "ValueError":
-                    ex.f13 = True
-                else:
-                    ex.monitors.append(("sink_usable_after_any_fault",
-                                        "call #%d reported %s although no fault was injected in it" % (idx, res), idx))
-            if any(shim.calls[j][0] == "close" for j in fired):
-                prev_fired_close = True
-            if kind in ("s", "r") or (kind == "i" and res != "ok"):
-                prev_fired_close = False if kind != "w" else prev_fired_close
+                ex.monitors.append(("sink_usable_after_any_fault",
+                                    "call #%d reported %s although no fault was injected in it" % (idx, res), idx))
             if kind == "i" and res != "ok":
                 break   # add() failed: there is no sink
         if hid[0] is not None:
@@ -827,8 +818,6 @@ def judge(ctx, execs, drv, prop):
         rep = {"scenario": sc, "faults": list(faults)}
         for name, text, idx in ex.monitors[:3]:
             ctx.violation("%s: %s" % (name, text), dict(rep, oracle=name, at=idx), kind="oracle")
-        if ex.f13:
-            f13(ctx, sc, faults)
     # 2. correspondence with the Lean model
     try:
         outs = drv.run([ex.line for _sc, _f, ex in execs])
@@ -848,23 +837,10 @@ def judge(ctx, execs, drv, prop):
             obs, text, idx = diffs[0]
             if ndiff <= 3:
                 ctx.broke("correspondence FileSink.step (%s)" % obs, text + "\nline: " + ex.line + "\nmodel: " + out)
-            if obs in ("result", "directory") and not ex.f13:
+            if obs in ("result", "directory"):
                 ctx.violation("implementation and model disagree on %s: %s" % (obs, text),
                               dict(rep, oracle="correspondence:" + obs, at=idx), kind="correspondence")
     return ndiff
-
-
-def f13(ctx, sc, faults):
-    what = ("a fault at file.close() leaves FileSink._file set to a closed file object: every later message "
-            "raises ValueError (sink unusable)")
-    if any(f.get("key") == F13_KEY for f in ctx.findings):
-        ctx.violation(what, {"scenario": sc, "faults": list(faults), "oracle": "sink_usable_after_any_fault"},
-                      key=F13_KEY)
-    else:
-        ctx.stat("candidate_defect_F13_close_fault_hits")
-        if not any("F13" in n for n in ctx.notes):
-            ctx.note("candidate defect F13 (not yet in known_findings.json, reported as a note): " + what +
-                     "; first seen with faults=%r" % (list(faults),))
 
 
 def load_corpus(prop):
@@ -895,20 +871,26 @@ def run(ctx):
     for sc, _f, ex in execs[:2]:
         ctx.sample({"scenario": sc, "line": ex.line})
     judge(ctx, execs, drv, PROP)
-    witness_f13(ctx)
+    close_fault_regression(ctx)
 
 
-def witness_f13(ctx):
-    """replay of the Lean witness `sink_usable_witness` (close fault) on the implementation"""
+def close_fault_regression(ctx):
+    """the Lean theorem `C08.close_fault_regression` replayed on the implementation: a fault at file.close()
+    during a rotation; the next message must be acknowledged and land in app.log after message 0"""
     sc = base_sc(ops=[W(), W(1), W(), W()])
     ex0 = execute(sc)
     closes = [j for j, t in enumerate(sum((r["trace"] for r in ex0.ops), [])) if t == "close"]
+    ctx.case(("regression", "F26"))
     if not closes:
+        ctx.violation("close_fault_regression: the rotation performs no file.close()", {"scenario": sc, "faults": []})
         return
     ex = execute(sc, (closes[0],))
-    ctx.case(("witness", "F13"))
-    if ex.f13:
-        f13(ctx, sc, (closes[0],))
+    rep = {"scenario": sc, "faults": [closes[0]], "oracle": "sink_usable_after_any_fault"}
+    for name, text, idx in ex.monitors[:2]:
+        ctx.violation("%s: %s" % (name, text), dict(rep, at=idx))
+    if len(ex.ops) > 2 and ex.ops[2]["res"] == "ok" and ex.ops[2]["snap"].get("b_0", ("",))[0] != "f:0,2":
+        ctx.violation("close_fault_regression: after the failed close the next message is not appended to the same "
+                      "file: %r" % {k: v[0] for k, v in ex.ops[2]["snap"].items()}, dict(rep, at=2))
 
 
 def replay(ctx, rep):
@@ -931,7 +913,7 @@ def replay(ctx, rep):
     for obs, text, idx in diffs:
         print("DISAGREE %s: %s" % (obs, text))
     want = r.get("oracle", "")
-    bad = bool(ex.monitors) or ex.f13 or any(d[0] in ("result", "directory") for d in diffs)
+    bad = bool(ex.monitors) or any(d[0] in ("result", "directory") for d in diffs)
     if want.startswith("correspondence"):
         bad = bad or bool(diffs)
     print("REPRODUCED" if bad else "not reproduced")
